@@ -15,7 +15,8 @@
       - `ChainBound` per component: recovery component = XOR of the matching's path operators,
                   path weight ≤ pair distance (C15), chosen matching minimal (C13), and the
                   error chain induces a perfect matching of total distance ≤ its weight
-                  (`chain_induces_matching`, NOT proved — see the end of the file).
+                  (`chain_induces_matching`: PROVED for the torus in Props/C14/Chain.lean, where
+                  `toric_mwpm_corrects` derives `ChainBound`; planar: see the end of the file).
   Index facts of C07 (`PlanarFlattenBound`, `ToricFlattenBound`: qubit numbers are < n) are
   hypotheses of the split theorems.
 -/
@@ -123,6 +124,10 @@ theorem mwpm_corrects_of_chain_bound_partial (S L : List BVec) (n d : Nat)
   exact corrected_of_components S L n d hS hL hcss hd r e hr he hs (by omega) (by omega)
 
 /-
+PROVED in Props/C14/Chain.lean (no longer stated only): the generic T-join lemma
+`chain_induces_matching_generic`, `chain_induces_matching_toric` and `toric_mwpm_corrects`
+(all sizes, any minimum-weight perfect matchings; `ChainBound` is derived there, not assumed).
+
 STATED, NOT PROVED:
 
   * chain_induces_matching (planar): for R, C ≥ 2, any X-type operator `ex` on the planar R×C code with
@@ -130,18 +135,25 @@ STATED, NOT PROVED:
     plaquettes, the decoder's primal graph G(D) (real nodes D, the nearest virtual plaquette of
     each, the extra virtual node when the node count is odd, edge weights `Planar.distance`, zero
     edges among virtual nodes) has a perfect matching M' with Σ_{(a,b) ∈ M'} distance a b ≤ bsfWt ex.
-    (T-join decomposition of the chain into defect–defect and defect–boundary segments; a segment
-    ending on the boundary is at least as long as the distance to the NEAREST virtual plaquette of
-    its defect.)  Same for Z-type operators / the dual graph, and for the toric code without
-    virtual nodes.  This is the one missing lemma for
+    Route: apply the generic lemma `chain_induces_matching_generic` (Lemmas/TJoin.lean) to the
+    plaquette graph with ONE extra vertex for the boundary (every boundary qubit is an edge to it;
+    pseudo-metric d'(a,b) = min(dist a b, bd a + bd b), d'(a,∂) = bd a with bd = `distance` to the
+    nearest virtual plaquette), then replace each pair (a,b) with d' = bd a + bd b by the two pairs
+    (a, vp a), (b, vp b), each pair (a,∂) by (a, vp a), and match the unused virtual nodes (and the
+    extra node) among themselves at weight 0.  Still needed: the planar lattice facts (qubit = path
+    of length 1 between adjacent plaquettes or to a virtual plaquette; `Planar.distance` triangle
+    inequality; bd a ≤ 1 for boundary-adjacent a and bd a ≤ dist a b + bd b) and the matching
+    surgery on the virtual nodes.  Same for Z-type operators / the dual graph.  This is the one
+    missing lemma for
 
-  * planar_mwpm_corrects / toric_mwpm_corrects: for all R, C ≥ 2, every minimum-weight perfect
+  * planar_mwpm_corrects: for all R, C ≥ 2, every minimum-weight perfect
     matching oracle and every `e` with bsfWt (xPart e) ≤ t and bsfWt (zPart e) ≤ t, t = (min R C − 1)/2:
       ∃ r, planarDecodeWith R C mtP mtD (synd (Planar.stabilizers R C) e) = .ok r ∧
            corrected (Planar.stabilizers R C) [Planar.logicalX R C, Planar.logicalZ R C] e r = true
     which follows from `mwpm_corrects_of_chain_bound_partial` + `mwpm_split_planar` + C02 (`hs`) +
     C07 (`hcss`, flatten bounds) + C08 (`hd`) + C13 (minimality) + C15 (path weights) +
-    chain_induces_matching.  Meanwhile the harness sweeps every such error for all sizes ≤ 5×5
+    chain_induces_matching (planar), exactly as `toric_mwpm_corrects` is assembled in
+    Props/C14/Chain.lean.  Meanwhile the harness sweeps every such error for all sizes ≤ 5×5
     (4×5 and smaller exhaustively; see harness/qv/props/c14.py).
 -/
 
